@@ -139,7 +139,7 @@ def run_shard(sh, rec):
         for perm in itertools.permutations(range(n)):
             if perm[0] != first_num:
                 continue
-            nums = [10 * p + 3 for p in perm]
+            nums = [10 * p for p in perm]  # the smallest sample number is 0
             rec.state()
             for sizes, avail in size_vectors(ids, styles):
                 rec.trans()
